@@ -442,7 +442,7 @@ def check_C06(tier):
                             "('nothing in flight'), gives data to ONE priority only and never releases: Mon_Prio demands that priority reaches H unreleased "
                             "items (granted all handlers, no release needed), and that nothing written stays undelivered once inputs are closed and "
                             "everything is released (Starved). non-trivial = trace in which the alone-scenario ran; distinct by events",
-                       extra=liveness_C06, quick_limit=500)
+                       extra=liveness_C06, quick_limit=500, thorough_limit=4000)   # every F6 trace is printed by the monitor run: keep their number bounded
 
 
 def models_v1_grace(v, sc, binary):
